@@ -78,6 +78,7 @@
 use std::borrow::Borrow;
 use std::fmt::{self, Debug, Formatter};
 use std::hash::{BuildHasher, Hash};
+use std::alloc::Layout;
 use std::mem;
 
 use hashbrown::hash_map::DefaultHashBuilder;
@@ -693,12 +694,31 @@ where
     fn try_reallocate(&mut self, new_capacity: usize) -> Result<(), TryReserveError> {
         let hasher = make_hasher(&self.hash_builder);
         let mut old_table = RawTable::try_with_capacity(new_capacity)?;
+
+        // Hashing runs user code, which may panic. Compute all hashes before
+        // any entry is moved, so that unwinding leaves the cache untouched.
+        // The raw iterator visits the buckets in the same order as the
+        // consuming iterator used below.
+
+        let mut hashes = Vec::new();
+
+        if hashes.try_reserve_exact(self.table.len()).is_err() {
+            let layout = Layout::array::<u64>(self.table.len())
+                .map_err(|_| TryReserveError::CapacityOverflow)?;
+
+            return Err(TryReserveError::AllocError { layout });
+        }
+
+        for bucket in unsafe { self.table.iter() } {
+            hashes.push(hasher(unsafe { bucket.as_ref() }));
+        }
+
         mem::swap(&mut self.table, &mut old_table);
 
-        for entry in old_table.into_iter() {
+        for (entry, hash) in old_table.into_iter().zip(hashes) {
             let mut prev_entry = entry.prev;
             let mut next_entry = entry.next;
-            let bucket = self.table.insert(hasher(&entry), entry, &hasher);
+            let bucket = self.table.insert(hash, entry, &hasher);
             let entry_ptr = EntryPtr::new(bucket.as_ptr());
             prev_entry.get_mut().next = entry_ptr;
             next_entry.get_mut().prev = entry_ptr;
